@@ -48,6 +48,17 @@ pub fn attack_ops(rng: &mut ChaCha8Rng, board: &Board, n_ops: usize) -> Value {
     let map: weechess_core::utils::ArrayMap<Square, PieceIndex> = board.into();
     let mut objs: Vec<Board> = vec![Board::from(&map)];
     let mut ops = vec![];
+    // first the live object itself, exactly as the move application produced it (whatever it inherited from its parent)
+    let live_first = rng.gen_range(0..3);
+    for k in 0..3 {
+        for color in [Color::Black, Color::White] {
+            match (k + live_first) % 3 {
+                0 => ops.push(json!({"op": "check", "obj": 99, "color": color_letter(color), "ans": json!(if board.is_check(color) { [1] } else { [0] })})),
+                1 => ops.push(json!({"op": "pawn", "obj": 99, "color": color_letter(color), "ans": bb_squares(board.colored_pawn_attacks(color))})),
+                _ => ops.push(json!({"op": "all", "obj": 99, "color": color_letter(color), "ans": bb_squares(board.colored_attacks(color))})),
+            }
+        }
+    }
     for _ in 0..n_ops {
         let o = rng.gen_range(0..objs.len());
         match rng.gen_range(0..8) {
